@@ -209,6 +209,15 @@ class Kernel:
         """Run the registered SIGCHLD handler if a SIGCHLD is pending (never nested)."""
         if not self.is_main() or self.in_handler:
             return
+        try:
+            if signal.SIGCHLD in signal.pthread_sigmask(signal.SIG_BLOCK, []):
+                # SIGCHLD is blocked in the main thread: it stays pending (and nothing interrupts a read)
+                if self.pending and not getattr(self, "_noted_blocked", False):
+                    self._noted_blocked = True
+                    self.ev("sigchld_blocked_by_mask")
+                return
+        except (OSError, ValueError):
+            pass
         if self.c_handled:
             self.c_handled = False
             self.pending = True
@@ -389,7 +398,19 @@ class Kernel:
                 finally:
                     self.deliver()
             if self.pending:
+                before_n = self.sigchld_deliveries
                 self.deliver()
+                if self.sigchld_deliveries != before_n or not self.pending:
+                    continue
+                # still pending: the signal is masked; only further exits could change anything
+                if not self.running():
+                    self.deadlock = {"blocked_in": "read(fd=%d)" % fd, "t": self.t, "sigchld_blocked_by_signal_mask": True,
+                                     "zombies": [p.pid for p in self.procs.values() if p.state == "zombie"], "reaped_by_pid_wait": []}
+                    self.ev("deadlock", **self.deadlock)
+                    raise Deadlock("read with SIGCHLD masked")
+                for p in self._pick([p for p in self.running()], 1):
+                    p.held = False
+                    self._exit(p)
                 continue
             self.snapshot_state(blocked=True)
             self.advance_blocked("read(fd=%d)" % fd)
